@@ -129,6 +129,7 @@ static RoundSpec gen_round(std::vector<std::string> *classes) {
   GenCfg cfg;
   cfg.thorough = g_thorough;
   cfg.allow_large = false;
+  cfg.allow_lattice = false;
   cfg.max_extra_atts = 2;
   for (int t = 0; t < n; ++t) {
     std::vector<Job> jobs;
